@@ -296,7 +296,8 @@ impl RedeemNode {
     ) -> Result<Arc<RedeemNode>, ExecutionError> {
         struct Pruner<'brand, 't, T> {
             inference_context: types::Context<'brand>,
-            tracker: &'t mut T,
+            /// `None`: keep every branch, only infer the types again
+            tracker: Option<&'t mut T>,
         }
 
         impl<'brand, 't, T> Converter<Redeem, Construct<'brand>> for Pruner<'brand, 't, T>
@@ -337,9 +338,12 @@ impl RedeemNode {
                 // The IHR of the pruned program may change,
                 // but the Converter trait gives us access to the unpruned node (`data`).
                 // The Bit Machine tracked (un)used case branches based on the unpruned IHR.
+                let Some(tracker) = self.tracker.as_ref() else {
+                    return Ok(Hide::Neither);
+                };
                 match (
-                    self.tracker.contains_left(data.node.ihr()),
-                    self.tracker.contains_right(data.node.ihr()),
+                    tracker.contains_left(data.node.ihr()),
+                    tracker.contains_right(data.node.ihr()),
                 ) {
                     (true, true) => Ok(Hide::Neither),
                     (false, true) => Ok(Hide::Left),
@@ -428,18 +432,36 @@ impl RedeemNode {
         // 2) Prune out unused case branches.
         // Because the types of the pruned program may change,
         // we construct a temporary witness program with unfinalized types.
-        types::Context::with_context(|inference_context| {
+        let pruned = types::Context::with_context(|inference_context| {
             let pruned_witness_program = self
                 .convert::<InternalSharing, _, _>(&mut Pruner {
                     inference_context,
-                    tracker,
+                    tracker: Some(tracker),
                 })
                 .expect("pruning unused branches is infallible");
 
             // 3) Finalize the types of the witness program.
             // We obtain the pruned redeem program.
             // Once the pruned type is finalized, we can proceed to prune witness values.
-            Ok(pruned_witness_program
+            pruned_witness_program
+                .convert::<InternalSharing, _, _>(&mut Finalizer)
+                .expect("finalization is infallible")
+        });
+
+        // 4) Infer the types once more, on the pruned program alone.
+        // In step 2 the nodes of the hidden branches were converted as well, in the same
+        // inference context, before their parent dropped them; a node that a hidden branch
+        // shared with the rest of the program is still constrained by it. Without this step the
+        // pruned program would not have its principal types (the ones it gets when it is
+        // decoded from its own serialization), and pruning it again would change them.
+        types::Context::with_context(|inference_context| {
+            let retyped_witness_program = pruned
+                .convert::<InternalSharing, _, _>(&mut Pruner::<T> {
+                    inference_context,
+                    tracker: None,
+                })
+                .expect("pruning unused branches is infallible");
+            Ok(retyped_witness_program
                 .convert::<InternalSharing, _, _>(&mut Finalizer)
                 .expect("finalization is infallible"))
         })
